@@ -22,7 +22,7 @@ PROP = "C20"
 RUN_TIMEOUT = 180
 RAND_SEEDS = [11, 22]
 TIERS = {
-    "quick": {"runs": 1400, "budget_s": 80, "selftest_seeds": 8},
+    "quick": {"runs": 2000, "budget_s": 85, "selftest_seeds": 8},
     "thorough": {"runs": 60000, "budget_s": 800, "selftest_seeds": 48, "selftest_cross": True, "cold_check": True},
 }
 RULE = ("one run = seeded history of 4-12 op templates (public pyrepseq calls with literal arguments taken from a shared "
@@ -304,6 +304,18 @@ def generate(seed, tier, index=0):
                 else:
                     o["fault"] = {"kind": k}
                 nfaults += 1
+                out.append(o)
+                # faults without a victim test nothing: follow the faulted op by a template of the same group / family
+                if rng.random() < 0.6:
+                    fam = FAMILY.get(spec.group)
+                    same = [m for m in names if ops[m].group == spec.group and not ops[m].slow]
+                    rel = [m for m in names if FAMILY.get(ops[m].group) == fam and not ops[m].slow]
+                    v = rng.choice(same if (same and rng.random() < 0.7) else (rel or names))
+                    vo = {"op": v}
+                    if ops[v].rand:
+                        vo["rng_seed"] = rng.choice(RAND_SEEDS)
+                    out.append(vo)
+                continue
         out.append(o)
     return {"property": PROP, "seed": seed, "tier": tier, "swarm": sw, "ops": out, "sched": sched}
 
